@@ -27,7 +27,7 @@ EXPLANATION = ('Lean theorems about applyStmts (failure stops the loop; the stat
 
 FAULTS = S.SYNTAX_FAULTS + ['unknown_param', 'unknown_cfg', 'unknown_ref', 'denylisted', 'bad_include', 'bad_import',
                             'bad_block_member', 'tok_error_first', 'bad_dedent', 'block_member_fails',
-                            'block_member_fails', 'ambiguous_cfg', 'import_clash']
+                            'block_member_fails', 'ambiguous_cfg', 'import_clash', 'import_raises']
 
 _FAULT_REGMODS = {}   # modules written for an injected fault (reset per generated case)
 
@@ -189,6 +189,12 @@ def render(rng, specs, regs, fault, files, flat):
                      _api='external')
         _FAULT_REGMODS['ginverif_regmod_clash'] = [clash]
         b.add('import ginverif_regmod_clash', {'k': 'import', 'module': 'ginverif_regmod_clash', 'found': True, 'regs': [clash]})
+      elif kind == 'import_raises':
+        # the body of the imported module raises an exception of a class of its own (constructor arguments that
+        # `args` does not hold): still located, one entry per include level
+        boom = dict(late_reg(rng, 96), listTypesOk=False, _raise_custom=True)
+        _FAULT_REGMODS['ginverif_regmod_boom'] = [boom]
+        b.add('import ginverif_regmod_boom', {'k': 'import', 'module': 'ginverif_regmod_boom', 'found': True, 'regs': [boom]})
       elif kind == 'tok_error_first':
         b.add(rng.choice(["'abc", '"unterminated', '$$$ = 1', '?']), {'k': 'syntax'})
       elif kind == 'bad_dedent':
@@ -273,6 +279,34 @@ def gen_case(rng):
           '_block_prefix': extra, '_regmods': regmods}
 
 
+def gen_locked_case(rng):
+  """The configuration is locked: the first binding (at whatever include depth) fails with a located RuntimeError, and
+  the statements before it - imports, includes entered - took effect as always."""
+  regs = G.gen_registry(rng, rng.randint(1, 2))
+  reg = regs[0]
+  cls = [n for n, k in G.param_classes(reg).items() if k == 'valid'] or ['x']
+  bind = ('bind', '', reg['_selector'], cls[0], G.gen_value(rng, 1))
+  pre = [('import', m) for m in rng.sample(S.KNOWN_MODULES, rng.randint(0, 2))]
+  inner_pre = [('import', m) for m in rng.sample(S.KNOWN_MODULES, rng.randint(0, 2))]
+  shape = rng.choice(['flat', 'include', 'include2'])
+  if shape == 'flat':
+    specs = pre + [bind, ('import', 'json')]
+    flat_specs = pre
+  elif shape == 'include':
+    specs = pre + [('include', 'incL.gin', inner_pre + [bind]), ('import', 'json')]
+    flat_specs = pre + inner_pre
+  else:
+    specs = pre + [('include', 'incL.gin', inner_pre + [('include', 'incM.gin', [('import', 'os'), bind])]), bind]
+    flat_specs = pre + inner_pre + [('import', 'os')]
+  files, flat = {}, []
+  text, stmts, _ = render(rng, specs, regs, None, files, flat)
+  parse = {'op': 'parse', 'file': None, 'skip': {'k': 'no'}, 'stmts': stmts, '_text': text, '_files': files, '_regmods': {}}
+  ops = list(regs) + [{'op': 'finalize'}, parse, {'op': 'config'}, {'op': 'prov'}, {'op': 'imports'}, {'op': 'locked'},
+                      {'op': 'curscope'}, {'op': 'registry'}]
+  return {'dom': 'gin', 'ops': ops, '_flat_text': flat_text(flat_specs), '_fault': 'locked', '_fault_pos': None,
+          '_nregs': len(regs) + 1, '_block_prefix': None, '_regmods': {}}
+
+
 def gen_located_case(rng):
   """The entry file exists in several search locations / readers and every copy fails at an include
   after its first statement: exactly the copy found first is applied up to there, the error
@@ -290,7 +324,7 @@ def gen_located_case(rng):
 def gen_cases(rng, tier, boost=1):
   n = (600 if tier == 'quick' else 20000) * boost
   for k in range(n):
-    yield gen_located_case(rng) if k % 8 == 7 else gen_case(rng)
+    yield gen_located_case(rng) if k % 8 == 7 else (gen_locked_case(rng) if k % 16 == 3 else gen_case(rng))
 
 
 def run_impl(case):
@@ -334,9 +368,16 @@ def oracle(case, impl):
     return f'recorded imports after the failed parse {imports}; the prefix alone records {fr[2]}'
   if case['ops'][-1]['op'] == 'registry' and len(fr) > 3 and impl['out'][-1] != fr[3]:
     return f'registered after the failed parse: {impl["out"][-1]}; the prefix alone registers {fr[3]}'
+  if case['_fault'] == 'import_raises' and res.get('err') != 'TypeError':
+    return f'an import whose module raises its own TypeError subclass surfaced as {res.get("err")}'
   if case['_fault'] == 'import_clash' and res.get('err') != 'ValueError':
     return f'an import whose module registers a taken name surfaced as {res.get("err")}'
-  if locked != {'ok': False} or scope != {'ok': []}:
+  if case['_fault'] == 'locked':
+    if res.get('err') != 'RuntimeError' or not res.get('chain'):
+      return f'the first binding under a locked configuration must fail with a located RuntimeError, got {res}'
+    if locked != {'ok': True}:
+      return f'the configuration was locked before the call and is {locked} after it'
+  elif locked != {'ok': False} or scope != {'ok': []}:
     return f'lock/scope not as before the call: locked {locked} scope {scope}'
   if case['_fault'] in ('unknown_param', 'unknown_cfg', 'unknown_ref', 'denylisted') and res.get('err') not in ('ValueError',):
     return f'semantic fault {case["_fault"]} surfaced as {res.get("err")}'
